@@ -320,6 +320,30 @@ def _g2(ctx: Context) -> None:
                 if t[0] == "cmp" and t[1] == ("NotEq",) and t[2][0] == ("sub", ("param", data), ("const", "status")) and t[2][1] == ("const", 0):
                     gate += cfg.out_edges(n, ("T",))
         ctx.must_pass("C13.G2", cfg, d, "request-wide status != 0", gate, desc="the default is applied only for a non-zero request-wide status")
+    # ... and ALWAYS then: from the non-zero-status outcome every path to the per-entry loop runs the default loop, unless the
+    # caller gave no requested set (nothing can be defaulted).  Any further condition (e.g. on the length of the reply's
+    # list) leaves requested characteristics the reply does not mention without a result.
+    gate = []
+    bypass = []
+    for n in cfg.nodes:
+        if n.kind == "test":
+            t = strip_sites(T.of(cfg, n, n.exprs[0]))
+            if t[0] == "cmp" and t[1] == ("NotEq",) and t[2][0] == ("sub", ("param", data), ("const", "status")) and t[2][1] == ("const", 0):
+                gate += cfg.out_edges(n, ("T",))
+            if t == ("param", requested):
+                bypass += cfg.out_edges(n, ("F",))
+            if t[0] == "cmp" and t[1] in (("IsNot",), ("Is",)) and t[2][0] == ("param", requested) and t[2][1] == ("const", None):
+                bypass += cfg.out_edges(n, ("F",) if t[1] == ("IsNot",) else ("T",))
+    dheads = [x.id for x in cfg.nodes if x.kind in ("for_iter", "for") and x.ast is default_loop.ast]
+    eheads = [x.id for x in cfg.nodes if x.kind in ("for_iter",) and x.ast is entry_loop.ast]
+    skipped = None
+    for e in gate:
+        pth = cfg.find_path(e[1], set(eheads) | {cfg.exit.id}, avoid_nodes=dheads, avoid_edges=bypass)
+        if pth is not None and e[1] not in dheads:
+            skipped = pth
+    ck.check("C13.G2", skipped is None and bool(gate), "a non-zero request-wide status is applied to the requested characteristics on every path (no further condition)",
+             f"{ctx.fkey(f)}:default-skipped", "format_characteristic_list: with a non-zero request-wide status a path reaches the per-entry loop without applying the status to the "
+             "requested characteristics: those the reply does not mention get no result at all", f.loc(), cfg.render_path(skipped) if skipped else None)
     early = [x for x in ast.walk(default_loop.ast) if isinstance(x, (ast.Break, ast.Continue, ast.Return))]
     ck.check("C13.G2", not early, "the default reaches every requested characteristic (no early exit)", f"{ctx.fkey(f)}:default-complete",
              "format_characteristic_list: the request-wide default skips requested characteristics", ctx.loc(f, default_loop))
